@@ -17,6 +17,12 @@ CHECKS = {
   "text": "The literal byte fixpoint needs the generator to run twice and is not decided. Decided: the header CRC of the shipped front end equals CRC-32 of grammar.ebnf; all 50 rule functions of the shipped front end lift to the terms grammar.ebnf denotes; the stage-2 front end that the tree's own generator produces from grammar.ebnf (a source file in the corpus crate, type-checked, never executed) lifts to exactly the same 50 terms and declares exactly the same public types. Equal normal forms mean the two front ends read every grammar text, valid or not, to the same structure or the same failure offset.",
   "note": TRUST + "Under C01.prim/C01.ax. Stage 3 and byte identity are not decided.",
  },
+ "C02": {
+  "category": "translation_validation",
+  "technique": "field-name-level lifting of result plumbing from MIR (provenance terms) compared with the provenance the grammar denotes; name-identity rule on rule wrappers; signature/static purity rule",
+  "text": "For every rule of every analysed grammar (1134 normal rules) the value its generated body returns is lifted into a provenance term per named field - which field applications feed it, concatenated in which order (first binding, then extends), what each choice arm contributes (value or default), what a failing optional and each successful closure iteration contribute, and which box / enum variant / Some / vec! post-processing is applied - by symbolic evaluation of the success path with extend tracking, closure-map interpretation and the closure-loop recogniser, and compared with the provenance an independent reader of the grammar derives. Wrappers build the public struct by name identity; overrides return the body's value unchanged; @string values are the consumed slice (C09). Purity (signatures, no statics) means abandoned alternatives/iterations/lookaheads can leave no trace except through these tracked values.",
+  "note": TRUST + "Under C01 (same functions denote the grammar's structure). I-level on analysed instances; the corpus covers arities from every source, permuted field orders across arms, multi-type and boxed fields, overrides.",
+ },
  "C03": {
   "category": "other",
   "technique": "finite-domain evaluation of the arity lattice, per-arity template tables read off quote! pushes, declared-type comparison (rustc-resolved ADTs vs an independent model of the documented mapping), rustc as witness on a corpus",
@@ -122,5 +128,4 @@ CHECKS = {
 }
 
 _PENDING = "check not built yet in this round (design in DESIGN.md §3); no verdict is claimed until it is"
-NOT_APPLICABLE = {pid: _PENDING for pid in
-  ["C02"]}
+NOT_APPLICABLE = {}
